@@ -9,7 +9,7 @@ DT_INT = DT_SIGNED + DT_UNSIGNED
 DT_ALL = DT_BOOL + DT_INT + DT_FLOAT
 
 STRATA = ["norows", "onerow", "onlyempty", "emptyfirst", "emptylast", "emptymid",
-          "consecutive", "trailingrun", "noempty", "onelong", "free", "big", "manyempty"]
+          "consecutive", "trailingrun", "noempty", "onelong", "free", "big", "manyempty", "rect", "pow2"]
 
 
 def sizes(tier):
@@ -52,6 +52,23 @@ def length_vector(rng, tier="quick", stratum=None, maxrows=None, maxlen=None, mi
         # a long run of consecutive empty rows (beyond 127 / 255: small counters overflow) followed by non-empty rows
         run = rng.choice([126, 127, 128, 129, 200, 255, 256, 257, 300])
         lens = [pos() for _ in range(rng.randint(0, 2))] + [0] * run + [pos() for _ in range(rng.randint(1, 3))] + ([0] * rng.choice([0, 130]) if rng.random() < 0.3 else [])
+    elif stratum == "rect":
+        # all rows equally long: a ragged array that happens to be rectangular (matrix fast paths)
+        k = rng.choice([1, 1, 2, 3, rng.randint(1, maxlen)])
+        lens = [k] * rng.randint(1, maxrows)
+    elif stratum == "pow2":
+        # sizes that sit exactly on a power of two / a block size: exactly 64 / 128 / 256 cells, or exactly 64 / 128 rows
+        if rng.random() < 0.5:
+            total = rng.choice([64, 64, 128, 256])
+            lens = []
+            while sum(lens) < total:
+                lens.append(min(rng.choice([0, 1, 3, 8, 16, 31, 32, 33, 64]), total - sum(lens)))
+            if rng.random() < 0.3:
+                lens.append(0)
+        else:
+            lens = [rng.choice([0, 1, 1, 2]) for _ in range(rng.choice([64, 128]))]
+            if rng.random() < 0.5:
+                lens[-1] = max(1, lens[-1])
     elif stratum == "big":
         # more than 20 rows and more than 100 cells: the other branches of repr/str, several 64-cell blocks, long prefix sums
         lens = [rng.choice([0, 0, 1, 3, 5, 8, 9]) for _ in range(rng.randint(22, 40))]
